@@ -718,15 +718,18 @@ func (r *run) runClone(subnet, wd string) {
 		"failreload": failReload})
 	// sample clone status / modes until it is RW (or time is up); writes go on at the source
 	deadline := time.Now().Add(60 * time.Second)
-	if failReload {
-		deadline = time.Now().Add(25 * time.Second)
-	}
+	errSeen := false
 	killed := false
 	samples := 0
 	for time.Now().Before(deadline) {
 		v := view(c2.procs["k1"].dir)
 		m := r.modes(c2)
 		r.emit("CloneSample", map[string]interface{}{"status": v.Clone, "ok": v.OK, "rebuilding": v.Reb, "cctl": m})
+		if v.Clone == "error" && !errSeen {
+			// a failed clone: three more polls of the new volume's controller (2 s each) must not serve it
+			errSeen = true
+			deadline = time.Now().Add(20 * time.Second)
+		}
 		if interrupt && !killed && v.Clone == "inProgress" {
 			c2.kill("k1")
 			killed = true
